@@ -99,6 +99,13 @@ void h_recv_step(void)
 			CHECK(g_dec_calls == 1, "decrypted once");
 			if (conn.is_client) CHECK(g_dec_hmac == &conn.server_write_mac_ctx && g_dec_key == &conn.server_write_enc_key && g_dec_seq == conn.server_seq_num, "client reads with the server-write keys and sequence number");
 			else CHECK(g_dec_hmac == &conn.client_write_mac_ctx && g_dec_key == &conn.client_write_enc_key && g_dec_seq == conn.client_seq_num, "server reads with the client-write keys and sequence number");
+			{	/* the read sequence number advances by exactly one per accepted record (also for an empty one), the write one is untouched */
+				uint8_t *rd = conn.is_client ? conn.server_seq_num : conn.client_seq_num, *rd0 = conn.is_client ? sseq : cseq;
+				uint8_t *wr = conn.is_client ? conn.client_seq_num : conn.server_seq_num, *wr0 = conn.is_client ? cseq : sseq;
+				uint64_t x = 0, y = 0; for (int i = 0; i < 8; i++) { x = (x << 8) | rd[i]; y = (y << 8) | rd0[i]; }
+				CHECK(x == y + 1, "read sequence number advanced by exactly one for the accepted record");
+				CHECK(memcmp(wr, wr0, 8) == 0, "write sequence number untouched by a read");
+			}
 			if (g_rtype == TLS_record_application_data) {
 				size_t want = outlen <= g_plain_len ? outlen : g_plain_len;
 				CHECK(r == 1 && got == want, "application data: min(outlen, record payload) bytes delivered");
